@@ -182,6 +182,7 @@ type StressEvent struct {
 }
 
 type StressResult struct {
+	Err       string
 	Consensus [][]byte // protobuf responses of every consensus call in order
 	Events    []StressEvent
 }
